@@ -96,6 +96,12 @@ def cases(draw, ctx, layouts):
         boxes[0], classes[0] = [0, n[0]], "whole"
     case["box"] = boxes
     case["classes"] = classes
+    if kind == "valid" and draw(st.integers(0, 3)) == 0:
+        # the same cropper object writes a second file (another box): both must be right
+        b2 = [draw(axis_box(n[k], bs[k]))[0] for k in range(3)]
+        if all(b is None for b in b2):
+            b2[1] = [0, n[1]]
+        case["again"] = b2
     return case
 
 
@@ -137,11 +143,18 @@ def run_case(case, ctx):
     box = [None if b is None else tuple(b) for b in case["box"]]
     fam = case["file"]["family"]
     exc = None
+    out2, box2, exc2 = os.path.join(d, "crop2.sgz"), None, None
     cropper = SgzCropper(path)
     try:
         try:
             if case["by"] == "index":
                 cropper.write_cropped_file_by_indexes(out, box[0], box[1], box[2])
+                if case.get("again"):
+                    box2 = [None if b is None else tuple(b) for b in case["again"]]
+                    try:
+                        cropper.write_cropped_file_by_indexes(out2, box2[0], box2[1], box2[2])
+                    except Exception as e2:
+                        exc2 = e2
             else:
                 zaxis = np.array(cropper.zslices, dtype=np.float64)
                 if len(zaxis) != len(T.samples) or (np.abs(zaxis - T.samples) > 1e-9 + 1e-12 * np.abs(T.samples)).any():
@@ -166,27 +179,38 @@ def run_case(case, ctx):
             return {"sig": None, "labels": labels + ["refused-layout"]}   # allowed: refusal, no output
         raise Violation(f"valid-crop-failed:{type(exc).__name__}", f"{case['box']} on {files.describe(case['file'])}: {exc}")
     src = source_stage(T)
-    want, w = stages.crop_stage(src, box)
-    # file headers unchanged except the documented sample-count patch
-    sh = bytearray(T.raw[4096:4096 + 3600])
-    sh[3220:3222] = struct.pack(">H", len(want.samples))
-    want.segy_header = bytes(sh)
-    stages.check_file(out, want, "cropped")
-    # every stored tracefield array equals the source's restricted to the box
     from seismic_zfp.read import SgzReader
-    (i0, i1), (x0, x1), _ = w
-    with SgzReader(out) as r:
-        for f in T.owners:
-            a = np.asarray(r.get_tracefield_values(f))
-            e = np.asarray(T.cols[f]).reshape(T.n_il, T.n_xl)[i0:i1, x0:x1]
-            if a.shape != e.shape or not np.array_equal(a, e):
-                raise Violation("cropped-tracefield", f"field {f} differs from the source's sub-array")
+
+    def check_crop(path_, box_, what):
+        want, w = stages.crop_stage(src, box_)
+        # file headers unchanged except the documented sample-count patch
+        sh = bytearray(T.raw[4096:4096 + 3600])
+        sh[3220:3222] = struct.pack(">H", len(want.samples))
+        want.segy_header = bytes(sh)
+        stages.check_file(path_, want, what)
+        # every stored tracefield array equals the source's restricted to the box
+        (i0, i1), (x0, x1), _ = w
+        with SgzReader(path_) as r:
+            for f in T.owners:
+                a = np.asarray(r.get_tracefield_values(f))
+                e = np.asarray(T.cols[f]).reshape(T.n_il, T.n_xl)[i0:i1, x0:x1]
+                if a.shape != e.shape or not np.array_equal(a, e):
+                    raise Violation("cropped-tracefield", f"{what}: field {f} differs from the source's sub-array")
+        return w
+    w = check_crop(out, box, "cropped")
+    if box2 is not None:
+        if exc2 is not None:
+            if not (fam != "4x4" and not os.path.exists(out2)):
+                raise Violation(f"second-crop-failed:{type(exc2).__name__}", f"same cropper object, second box {case['again']}: {exc2}")
+        else:
+            check_crop(out2, box2, "cropped-again")
     bs = T.s.blockshape
     unaligned = any(b is not None and (b[0] % bs[k] or (b[1] % bs[k] and b[1] != case["file"]["shape"][k])) for k, b in enumerate(box))
     partial = any(w[k][1] % bs[k] for k in range(3))
     nontriv = unaligned or partial or len(T.owners) >= 3
     return {"sig": [fam, case["classes"], case["by"], len(T.owners), partial] if nontriv else None,
-            "labels": labels + (["unaligned"] if unaligned else []) + (["partial-end"] if partial else [])}
+            "labels": labels + (["unaligned"] if unaligned else []) + (["partial-end"] if partial else [])
+            + (["cropper-reused"] if box2 is not None else [])}
 
 
 def shard_main(ctx):
